@@ -1,4 +1,4 @@
-//! C07 — not built yet.
+//! C07 — placeholder until the generator is written.
 use crate::common::*;
 
 pub fn groups() -> Vec<Box<dyn Group>> {
